@@ -194,4 +194,49 @@ def LProg.noiseUB (chain : Nat → Level) (kl : KeyLevel) (A Be : Nat) (S : Nat)
       else none
     | none => none
 
+
+/-! ### BFV programs: negate / add / sub (`translate_inplace`, all size pairs) / multiply, square (BEHZ `bfv_multiply`, all size pairs) on
+    coefficient-form ciphertexts of one level (`T` = the NTT tables of the auxiliary base Bsk) -/
+
+inductive FProg where
+  | inp (i : Nat)
+  | neg (p : FProg)
+  | add (p q : FProg)
+  | sub (p q : FProg)
+  | mul (p q : FProg)
+  deriving Repr, DecidableEq
+
+def FProg.eval (l : Level) (T : Array NTTTables) (cts : Nat → Ct) : FProg → R Ct
+  | .inp i => pure (cts i)
+  | .neg p => do let a ← p.eval l T cts; ctNegate l a
+  | .add p q => do let a ← p.eval l T cts; let b ← q.eval l T cts; ctTranslate l a b false
+  | .sub p q => do let a ← p.eval l T cts; let b ← q.eval l T cts; ctTranslate l a b true
+  | .mul p q => do let a ← p.eval l T cts; let b ← q.eval l T cts; bfvMultiply l T a b
+
+def FProg.ctInputs : FProg → List Nat
+  | .inp i => [i]
+  | .neg p => p.ctInputs
+  | .add p q | .sub p q | .mul p q => p.ctInputs ++ q.ctInputs
+
+/-- the BEHZ noise-growth bound of one `bfv_multiply`, scaled by 2^34 (= `c02x_F` of Proofs/C02X.lean: N degree, K = |q|, S ≥ ‖s‖₁, operand
+    sizes na, nb, operand invariant-noise bounds Va, Vb) -/
+def bfvMulF (N t K S na nb Va Vb : Nat) : Nat :=
+  N * ((2 * t * ((2^32 + 2 * K) * geoSum S na) + 2^33) * Vb + (2 * t * ((2^32 + 2 * K) * geoSum S nb) + 2^33) * Va)
+    + 2^33 * N * Vb + 2 * 2^33 * t * (K * geoSum S (na + nb - 1))
+
+/-- a-priori bookkeeping for BFV: (size, bound on the invariant noise ‖[t·x]_Q‖∞); every node checks that the bound stays below Q/2
+    (`none` otherwise: the message is then no longer determined by the phase) -/
+def FProg.noiseUB (N t K Q S : Nat) (inp : Nat → Nat × Nat) : FProg → Option (Nat × Nat)
+  | .inp i => some (inp i)
+  | .neg p => p.noiseUB N t K Q S inp
+  | .add p q | .sub p q =>
+    match p.noiseUB N t K Q S inp, q.noiseUB N t K Q S inp with
+    | some (s1, b1), some (s2, b2) => if 2 * (b1 + b2) < Q then some (max s1 s2, b1 + b2) else none
+    | _, _ => none
+  | .mul p q =>
+    match p.noiseUB N t K Q S inp, q.noiseUB N t K Q S inp with
+    | some (s1, b1), some (s2, b2) =>
+      if bfvMulF N t K S s1 s2 b1 b2 < 2^33 * Q then some (s1 + s2 - 1, bfvMulF N t K S s1 s2 b1 b2 / 2^34) else none
+    | _, _ => none
+
 end HC
